@@ -188,6 +188,48 @@ def serializeHtmlWriteN (N : Str → Str) (env : Env) (p : HtmlParams) (t : Tree
     | none => writeHtmlGoN N c t (htmlInitState c t start) (genOutputs t start)
   (htmlDoctype ++ body.1, body.2)
 
+/-! ### `serialize_write_with_normalizer` in front of a writer that can fail -/
+
+/-- One `serialize_node(w, node, output)?` of `Html5Serializer<N>::serialize`. -/
+def htmlStepCallsN (N : Str → Str) (c : HtmlCtx) (t : Tree) (s : HState) (po : Path × Output) :
+    List Str × Outcome XotError HState :=
+  match renderHtmlAtN N c t s po.1 po.2 with
+  | .ok (s', tok) => (htmlTokenCalls tok, .ok s')
+  | .err e => ([], .err e)
+  | .panic => ([], .panic)
+
+/-- One iteration of `Html5Serializer<N>::serialize_pretty`'s loop. -/
+def htmlPrettyStepCallsN (N : Str → Str) (c : HtmlCtx) (suppress : List Nat) (t : Tree)
+    (st : PStack × HState) (po : Path × Output) : List Str × Outcome XotError (PStack × HState) :=
+  let (ps', ind, nl) := prettifyHtmlAt c suppress t st.1 po.1 po.2
+  let pre : List Str := if ind > 0 then [htmlIndentBytes ind] else []
+  match renderHtmlAtN N c t st.2 po.1 po.2 with
+  | .ok (s', tok) => (pre ++ htmlTokenCalls tok ++ (if nl then [htmlNewline] else []), .ok (ps', s'))
+  | .err e => (pre, .err e)
+  | .panic => (pre, .panic)
+
+/-- `xot.html5().serialize_write_with_normalizer(parameters, node, w, normalizer)` for any writer. -/
+def serializeHtmlWriteNW (P : WriterPolicy) (N : Str → Str) (env : Env) (p : HtmlParams) (t : Tree)
+    (start : Path) : Str × Outcome XotError Unit :=
+  let c := htmlCtx env p
+  match writeCalls P [] [htmlDoctype] with
+  | .error b => (b, .err .io)
+  | .ok h1 =>
+    match p.indentation with
+    | some suppress =>
+      writeLoopW P (htmlPrettyStepCallsN N c suppress t) h1 ([], htmlInitState c t start) (genOutputs t start)
+    | none => writeLoopW P (htmlStepCallsN N c t) h1 (htmlInitState c t start) (genOutputs t start)
+
+/-- The calls it makes when none is refused, in order, and how it ends. -/
+def serializeHtmlCallsN (N : Str → Str) (env : Env) (p : HtmlParams) (t : Tree) (start : Path) :
+    List Str × Outcome XotError Unit :=
+  let c := htmlCtx env p
+  let body := match p.indentation with
+    | some suppress =>
+      callsLoop (htmlPrettyStepCallsN N c suppress t) ([], htmlInitState c t start) (genOutputs t start)
+    | none => callsLoop (htmlStepCallsN N c t) (htmlInitState c t start) (genOutputs t start)
+  ([htmlDoctype] ++ body.1, body.2)
+
 /-- `xot.html5().serialize_string_with_normalizer(parameters, node, normalizer)`. -/
 def serializeHtmlStringN (N : Str → Str) (env : Env) (p : HtmlParams) (t : Tree) (start : Path) :
     Outcome XotError Str :=
